@@ -21,12 +21,16 @@ class Module:
         self.digest = hashlib.sha256(raw).hexdigest()[:16]
         self.source = raw.decode("utf-8")
         self.tree = ast.parse(self.source, filename=self.path)
+        from . import e1_names
+        self.renamed = e1_names.recover(self.tree, rel)     # [(function, {current local name: reference name})]
         self.funcs = {}
         self.classes = {}
         self._index(self.tree, "", None)
 
     def _index(self, node, prefix, parent):
         for child in ast.iter_child_nodes(node):
+            if isinstance(child, (ast.expr_context, ast.operator, ast.unaryop, ast.cmpop, ast.boolop)):
+                continue        # CPython shares one instance of these between all trees: never hang a tree on them
             child._vparent = node
             child._vmod = self
             if isinstance(child, (ast.FunctionDef, ast.AsyncFunctionDef)):
